@@ -87,6 +87,16 @@ mod verif_probe_distance_c16 {
                     failures.push(format!("PROBE input: vector of length {} with {} leading non-zero values, zeros after (packed {}): distance.packing_round_trip: unpacks to {} values {:?}..., expected the {} values padded to {}", len, lead, how, back.len(), &back[..back.len().min(12)], len, padded(&a).len()));
                 }
             }
+            // a dense vector against a sparse one (whole packed blocks of the sparse one are zero): both distances against the scalar formulas
+            let dense: Vec<f32> = (0..len).map(|i| 0.5 + (i % 5) as f32).collect();
+            if lead > 0 {
+                for (x, y) in [(&dense, &a), (&a, &dense)] {
+                    let (sc, ws) = (cosine(&Feature::from_vec(x), &Feature::from_vec(y)) as f64, co(x, y));
+                    if (sc - ws).abs() > 1e-4 { failures.push(format!("PROBE input: a dense vector of length {} against one with {} leading non-zero values and zeros after: distance.cosine_is_the_scalar_formula: {} vs {}", len, lead, sc, ws)); }
+                    let (d, w) = (euclidean(&Feature::from_vec(x), &Feature::from_vec(y)) as f64, eu(x, y));
+                    if (d - w).abs() > 1e-4 * w + 1e-9 { failures.push(format!("PROBE input: a dense vector of length {} against one with {} leading non-zero values and zeros after: distance.euclidean_is_the_scalar_formula: {} vs {}", len, lead, d, w)); }
+                }
+            }
             let b: Vec<f32> = (0..len).map(|i| if i < lead { 2.0 } else { 0.0 }).collect();
             let (d, w) = (euclidean(&Feature::from_vec(&a), &Feature::from_vec(&b)) as f64, eu(&a, &b));
             if (d - w).abs() > 1e-4 * w + 1e-9 { failures.push(format!("PROBE input: sparse vectors of length {} ({} leading non-zero values): distance.euclidean_is_the_scalar_formula: {} vs {}", len, lead, d, w)); }
